@@ -11,8 +11,10 @@
 package c13
 
 import (
+	"encoding/json"
 	"fmt"
 	"os"
+	"path/filepath"
 	"sync"
 	"time"
 
@@ -29,6 +31,46 @@ var (
 	tallies = map[string]map[string]int{}
 )
 
+func writeTallies(dir string) {
+	if dir == "" {
+		return
+	}
+	tallyMu.Lock()
+	defer tallyMu.Unlock()
+	if len(tallies) == 0 {
+		return
+	}
+	b, _ := json.Marshal(tallies)
+	os.WriteFile(filepath.Join(dir, fmt.Sprintf("t%d.json", os.Getpid())), b, 0644)
+}
+
+func readTallies(dir string) {
+	if dir == "" {
+		return
+	}
+	files, _ := filepath.Glob(filepath.Join(dir, "t*.json"))
+	for _, f := range files {
+		b, err := os.ReadFile(f)
+		if err != nil {
+			continue
+		}
+		var m map[string]map[string]int
+		if json.Unmarshal(b, &m) != nil {
+			continue
+		}
+		tallyMu.Lock()
+		for set, vals := range m {
+			if tallies[set] == nil {
+				tallies[set] = map[string]int{}
+			}
+			for v, n := range vals {
+				tallies[set][v] += n
+			}
+		}
+		tallyMu.Unlock()
+	}
+}
+
 func tally(set, val string) {
 	tallyMu.Lock()
 	m := tallies[set]
@@ -42,9 +84,14 @@ func tally(set, val string) {
 
 func Main() {
 	r := core.Start("C13", "exploration")
-	r.SetRule("part sets: a sequence is non-trivial when the set was completed and read back after at least one adversarial or duplicate offer; " +
-		"blocks: a height is non-trivial when at least one mutant kept Block.Hash() and had to be rejected by validation; " +
-		"codecs: every object that went through all its encodings")
+	r.SetRule("part sets: a case (one data blob, part size and last-part shape) is non-trivial when every one of its offer sequences - genuine parts in the " +
+		"stated orders with duplicates and adversarial parts - ended with the set complete and read back byte-identical; " +
+		"blocks: a height is non-trivial when at least one mutant kept Block.Hash() and was rejected by ValidateBlock of both executors; " +
+		"codecs: a committed height whose block, commits, votes, proposal, parts, block meta and transactions went through all their encodings")
+	r.Assume("SHA-256 and Keccak-256 are collision resistant (a part whose bytes differ from the chunk at its index is taken not to belong there)")
+	r.Assume("a mutant is the wire encoding of a valid proposed block with one field changed, decoded with BlockFromProto as consensus does; compound mutations that also repair the header hash change Block.Hash() by construction and are not generated")
+	r.Assume("two blocks are the same when all header fields, transactions, last-commit fields and evidence fields read through the exported getters are equal; different bytes that decode to the same block are counted, not judged")
+	r.Assume("the empty part set (0 parts) is outside the domain: no block encodes to zero bytes; what the constructors do with it is recorded under zero_parts_not_judged")
 	if msg := refSelfTest(); msg != "" {
 		r.Inconclusive("reference Merkle tree self-test failed: " + msg)
 		r.Finish()
@@ -63,10 +110,27 @@ func Main() {
 	lap("parts-random")
 
 	log.Root().SetHandler(log.DiscardHandler())
-	r.Cases("blocks-corpus", 4, core.Opts{Workers: 4}, func(c *core.Case) { blocksCase(c, true) })
+	// The chains run the product's own goroutines (transaction pool, chain), so these groups run in
+	// child processes: a fatal error there is attributed to a case instead of killing the check.
+	// The children hand their tallies back through files in a scratch directory.
+	tallyDir := os.Getenv("VERIF_C13_TALLY_DIR")
+	if !r.IsChild() {
+		if d, err := os.MkdirTemp("", "c13tally"); err == nil {
+			tallyDir = d
+			defer os.RemoveAll(d)
+		}
+	}
+	env := []string{"VERIF_C13_TALLY_DIR=" + tallyDir}
+	r.Cases("blocks-corpus", 4, core.Opts{Procs: 4, StallSec: 240, Env: env}, func(c *core.Case) { blocksCase(c, true) })
 	lap("blocks-corpus")
-	r.Cases("blocks", r.N(56, 3000), core.Opts{Workers: 8}, func(c *core.Case) { blocksCase(c, false) })
+	r.Cases("blocks", r.N(56, 3000), core.Opts{Procs: 8, StallSec: 240, Env: env}, func(c *core.Case) { blocksCase(c, false) })
 	lap("blocks")
+	if r.IsChild() {
+		writeTallies(tallyDir)
+		r.Finish()
+	}
+	readTallies(tallyDir)
+	os.RemoveAll(tallyDir)
 
 	tallyMu.Lock()
 	for k, m := range tallies {
@@ -74,11 +138,11 @@ func Main() {
 	}
 	tallyMu.Unlock()
 	r.Extra("exhaustive", map[string]interface{}{
-		"max_parts":                 6,
-		"configurations":            len(cfgs),
-		"arrival_orders_all":        r.Counter("exhaustive_permutations"),
-		"adversarial_insertions":    r.Counter("exhaustive_bogus_insertions"),
-		"note":                      "every arrival order of every set of <= 6 parts (each step followed by a duplicate); every adversarial part of the matrix at every insertion point, under every order for <= 4 parts (sizes 1, 7, 1000) and under 2-3 orders otherwise",
+		"max_parts":              6,
+		"configurations":         len(cfgs),
+		"arrival_orders_all":     r.Counter("exhaustive_permutations"),
+		"adversarial_insertions": r.Counter("exhaustive_bogus_insertions"),
+		"note":                   "every arrival order of every set of <= 6 parts (each step followed by a duplicate); every adversarial part of the matrix at every insertion point, under every order for <= 4 parts (sizes 1, 7, 1000) and under 2-3 orders otherwise",
 	})
 	r.Floor("exhaustive_permutations", 800)
 	r.Floor("bogus_rejected", 10000)
